@@ -153,6 +153,15 @@ func sandboxFamily(w *World, prop string) ([]*Obligation, []string) {
 	for _, n := range expandFuncList(w, w.Contracts.Lists["sandbox_exempt"]) {
 		exemptFns[n] = true
 	}
+	// the functions that start a render of their own: they build a new context that is not sandboxed
+	entryFns := map[string]bool{}
+	for _, n := range expandFuncList(w, w.Contracts.Lists["render_entries"]) {
+		entryFns[n] = true
+	}
+	isEntryCall := func(cc *ssa.CallCommon) bool {
+		f := cc.StaticCallee()
+		return f != nil && f.Pkg == w.Pkg && entryFns[displayName(f)]
+	}
 	for _, name := range sortedKeys(w.Funcs) {
 		fn := w.Funcs[name]
 		if len(fn.Blocks) == 0 || exemptFns[name] {
@@ -190,6 +199,9 @@ func sandboxFamily(w *World, prop string) ([]*Obligation, []string) {
 							if isRenderContextPtr(a.Type()) {
 								relevant = true
 							}
+						}
+						if isEntryCall(cc) {
+							relevant = true
 						}
 					}
 				}
@@ -281,6 +293,13 @@ func sandboxFamily(w *World, prop string) ([]*Obligation, []string) {
 			if ctxVal == nil {
 				return
 			}
+			// a render of its own (Template.Render/RenderTo, Engine.Render/RenderTo, DebugRender) starts
+			// with a context that is not sandboxed: a function that works for a render context does
+			// not start one unless that context is known not to be sandboxed
+			if isEntryCall(cc) {
+				o := fx.oblige("sbx-entry", "(not "+entrySbx()+")", call, "a render of its own (a new context, not sandboxed) is started by "+calleeLabel(cc)+" only where the context at hand is not sandboxed")
+				o.Props = []string{"C06"}
+			}
 			var passed []ssa.Value
 			if cc.IsInvoke() {
 				// receiver is not a context
@@ -331,7 +350,7 @@ func sandboxFamily(w *World, prop string) ([]*Obligation, []string) {
 			continue
 		}
 		for _, o := range obls {
-			if o.Kind == "choke" || o.Kind == "sbx-prop" || o.Kind == "sbx-store" {
+			if o.Kind == "choke" || o.Kind == "sbx-prop" || o.Kind == "sbx-store" || o.Kind == "sbx-entry" || (o.Kind == "pre" && hasProp(o.Props, "C06")) {
 				out = append(out, o)
 			}
 		}
